@@ -94,6 +94,9 @@ func (a *clusterACLs) allowed(principal, host, resourceName string, resourceType
 	return hasAllow
 }
 
+// anyAllowed returns whether the principal may perform op on at least one
+// resource of the given type. As in Kafka's authorizeByResourceType, an
+// ALLOW pattern only counts if no matching DENY pattern dominates it.
 func (a *clusterACLs) anyAllowed(principal, host string, resourceType kmsg.ACLResourceType, op kmsg.ACLOperation) bool {
 	for i := range a.acls {
 		acl := &a.acls[i]
@@ -103,8 +106,39 @@ func (a *clusterACLs) anyAllowed(principal, host string, resourceType kmsg.ACLRe
 			!acl.matchesOp(op) {
 			continue
 		}
-		if acl.permission == kmsg.ACLPermissionTypeAllow {
+		if acl.permission == kmsg.ACLPermissionTypeAllow && !a.denyDominates(acl, principal, host, resourceType, op) {
 			return true
+		}
+	}
+	return false
+}
+
+// denyDominates returns whether a matching DENY covers every resource the
+// allow pattern grants: a literal "*" DENY covers everything, a literal DENY
+// covers the same literal, and a prefixed DENY covers the literals and
+// prefixes it is a prefix of (but never the "*" wildcard ALLOW).
+func (a *clusterACLs) denyDominates(allow *acl, principal, host string, resourceType kmsg.ACLResourceType, op kmsg.ACLOperation) bool {
+	for i := range a.acls {
+		deny := &a.acls[i]
+		if deny.permission != kmsg.ACLPermissionTypeDeny ||
+			deny.resourceType != resourceType ||
+			!deny.matchesPrincipal(principal) ||
+			!deny.matchesHost(host) ||
+			!deny.matchesOp(op) {
+			continue
+		}
+		switch deny.pattern {
+		case kmsg.ACLResourcePatternTypeLiteral:
+			if deny.resourceName == "*" ||
+				(allow.pattern == kmsg.ACLResourcePatternTypeLiteral && deny.resourceName == allow.resourceName) {
+				return true
+			}
+		case kmsg.ACLResourcePatternTypePrefixed:
+			allowWildcard := allow.pattern == kmsg.ACLResourcePatternTypeLiteral && allow.resourceName == "*"
+			if !allowWildcard && deny.resourceName != "" && strings.HasPrefix(allow.resourceName, deny.resourceName) {
+				return true
+			}
+		default: // stored ACLs are literal or prefixed
 		}
 	}
 	return false
